@@ -70,6 +70,23 @@ class Form:
 
 
 @dataclass
+class Val:
+    """The expression selected by TARGET equals EXPECT after normalisation
+    (linear arithmetic in normal form, calls canonicalised argument-wise):
+    a documented formula, tolerant of reordered terms."""
+
+    props: tuple[str, ...]
+    fn: str
+    kind: str  # ret | stmt (value of an assignment) | arg:<k> | expr
+    target: str
+    expect: str  # python expression
+    why: str
+    min: int = 1
+    resolve: bool = False
+    rule: str = "RG-val"
+
+
+@dataclass
 class Must:
     props: tuple[str, ...]
     fn: str
@@ -91,6 +108,14 @@ def find_targets(v: FnView, kind: str, pattern: str) -> list[ast.AST]:
         cands = v.find(lambda n: isinstance(n, ast.Return))
     elif kind == "call" or kind.startswith("arg:"):
         cands = v.find(lambda n: isinstance(n, ast.Call))
+    elif kind == "loop":
+        out = []
+        for n in v.find(lambda n: isinstance(n, (ast.For, ast.While))):
+            head = f"for {one_line(n.target)} in {one_line(n.iter)}" if isinstance(n, ast.For) else f"while {one_line(n.test)}"
+            if rx.search(head):
+                n._head = head  # type: ignore[attr-defined]
+                out.append(n)
+        return out
     elif kind == "expr":
         cands = v.find(lambda n: isinstance(n, ast.expr))
     else:
@@ -141,6 +166,28 @@ def _run_one(prog: Program, report: Report, g) -> int:
                         bad += sorted(dom - allowed)
                     if bad:
                         report.violate(g.rule, v.fn, t, f"over-guarded: {one_line(t)[:100]}", f"{g.why}; it is additionally guarded by {bad}, so it no longer happens in cases where it must", what=f"{g.why.split(';')[0]}: no stronger guard than {g.needs}")
+        elif isinstance(g, Val):
+            from .rn import canon
+
+            want = canon(ast.parse(g.expect, mode="eval").body)
+            for t in targets:
+                n += 1
+                if g.kind.startswith("arg:"):
+                    k = int(g.kind[4:])
+                    e = t.args[k] if -len(t.args) <= k < len(t.args) else None  # type: ignore[attr-defined]
+                elif g.kind == "ret":
+                    e = t.value  # type: ignore[attr-defined]
+                elif g.kind == "stmt":
+                    e = getattr(t, "value", None)
+                else:
+                    e = t
+                if e is None:
+                    raise AnalysisError(f"{g.rule}: {g.fn}: target /{g.target}/ has no value expression")
+                got = canon(v.res.expr(e) if g.resolve else e)
+                if got == want:
+                    report.ob(g.rule, g.fn, f"{g.why.split(';')[0]}: `{one_line(e)[:70]}` = {want}")
+                else:
+                    report.violate(g.rule, v.fn, t, f"{g.why.split(';')[0]}: {one_line(t)[:100]}", f"{g.why}; the expression normalises to `{got}` but the documented formula is `{want}`", what=f"/{g.target}/ = {want}")
         elif isinstance(g, Form):
             rx = re.compile(g.form)
             for t in targets:
@@ -154,6 +201,8 @@ def _run_one(prog: Program, report: Report, g) -> int:
                     text = one_line(args[k])
                 elif g.kind == "ret":
                     text = one_line(t.value) if t.value is not None else "None"  # type: ignore[attr-defined]
+                elif g.kind == "loop":
+                    text = getattr(t, "_head", one_line(t))
                 else:
                     text = one_line(t)
                 if rx.search(text):
